@@ -65,6 +65,11 @@ pub fn scenario(sub: u64) -> Option<(String, bool, u64)> {
     let mut expect_a: Vec<u64> = Vec::new();
     let mut expect_b: Vec<u64> = Vec::new();
     let mut expect_c: Vec<u64> = Vec::new();
+    // in half of the scenarios A's deliveries are already sitting in its queue, unread, when A
+    // is cancelled / dropped (a clone of its receiver is read afterwards)
+    let settle = rng.chance(1, 2);
+    let before_pre = peer.sh.st.lock().unwrap().episodes_done;
+    let a_clone = a.receiver().clone();
     for _ in 0..pre {
         peer.push_frames(&delivery(id1, &ta, dtag, b"a"));
         expect_a.push(dtag);
@@ -75,6 +80,10 @@ pub fn scenario(sub: u64) -> Option<(String, bool, u64)> {
         peer.push_frames(&delivery(id2, &tc, dtag, b"c"));
         expect_c.push(dtag);
         dtag += 1;
+    }
+    if settle {
+        peer.wait(|s| s.episodes_done >= before_pre + 3 * pre || s.dropped, Duration::from_secs(5));
+        std::thread::sleep(Duration::from_millis(2));
     }
     if mode == 6 {
         let n = 65536 + rng.range(1, 3000);
@@ -123,6 +132,16 @@ pub fn scenario(sub: u64) -> Option<(String, bool, u64)> {
             drop(a);
         }
     }
+    if mode != 1 && mode != 3 && mode != 4 {
+        // what a holder of a clone of A's receiver still gets: everything, then the terminal message
+        while let Ok(m) = a_clone.recv_timeout(Duration::from_millis(500)) {
+            a_seen.push(code(&m));
+            if a_seen.last().copied().unwrap_or(0) > 1_000_000 {
+                break;
+            }
+        }
+    }
+    drop(a_clone);
     // give the I/O thread the time to get past its delayed step
     std::thread::sleep(Duration::from_millis(if delayed { 15 } else { 2 }));
     if delayed {
